@@ -6,7 +6,7 @@ import collections
 from opt_einsum.paths import greedy
 
 import funsor.interpreter as interpreter
-from funsor.cnf import Contraction
+from funsor.cnf import Contraction, _rename_clashing_bound_vars
 from funsor.interpretations import (
     DispatchedInterpretation,
     PrioritizedInterpretation,
@@ -45,21 +45,27 @@ def unfold_contraction_generic_tuple(red_op, bin_op, reduced_vars, terms):
             return Contraction(red_op, v.bin_op, reduced_vars, *new_terms)
 
         if red_op in (v.red_op, ops.null) and (v.red_op, bin_op) in DISTRIBUTIVE_OPS:
+            v_reduced_vars, v_terms = _rename_clashing_bound_vars(
+                v, terms[:i] + terms[i + 1 :], reduced_vars
+            )
             new_terms = (
                 terms[:i]
-                + (Contraction(v.red_op, v.bin_op, frozenset(), *v.terms),)
+                + (Contraction(v.red_op, v.bin_op, frozenset(), *v_terms),)
                 + terms[i + 1 :]
             )
-            return Contraction(v.red_op, bin_op, v.reduced_vars, *new_terms).reduce(
+            return Contraction(v.red_op, bin_op, v_reduced_vars, *new_terms).reduce(
                 red_op, reduced_vars
             )
 
         if v.red_op in (red_op, ops.null) and bin_op in (v.bin_op, ops.null):
             red_op = v.red_op if red_op is ops.null else red_op
             bin_op = v.bin_op if bin_op is ops.null else bin_op
-            new_terms = terms[:i] + v.terms + terms[i + 1 :]
+            v_reduced_vars, v_terms = _rename_clashing_bound_vars(
+                v, terms[:i] + terms[i + 1 :], reduced_vars
+            )
+            new_terms = terms[:i] + v_terms + terms[i + 1 :]
             return Contraction(
-                red_op, bin_op, reduced_vars | v.reduced_vars, *new_terms
+                red_op, bin_op, reduced_vars | v_reduced_vars, *new_terms
             )
 
     return None
